@@ -55,8 +55,8 @@ def _fn():
 def _op(draw, counter):
     name = draw(st.sampled_from([
         "filter", "filter_out", "filter_kv", "filter_out_kv", "sort", "sort", "unique", "select", "unselect", "rename",
-        "modify", "modify_if", "fill", "append", "extend", "insert", "insert", "add", "mul", "reverse", "head", "tail",
-        "tail", "slice"]))
+        "modify", "modify_if", "fill", "fill", "append", "extend", "insert", "insert", "add", "mul", "reverse", "head", "tail",
+        "tail", "slice", "keys", "keys"]))
     op = {"op": name}
     if name in ("filter", "filter_out"):
         op["pred"] = draw(_pred())
@@ -249,6 +249,8 @@ def ref_apply(ref, op):
         return ref[len(ref) - k:]
     if name == "slice":
         return ref[slice(*op["s"])]
+    if name == "keys":
+        return list(ref)                        # a query, the list itself is unchanged
     raise AssertionError(name)
 
 
@@ -291,6 +293,16 @@ def real_apply(real, op):
         return getattr(real, name)(_n(op["n"], len(real)))
     if name == "slice":
         return real[slice(*op["s"])]
+    if name == "keys":
+        got = list(real.keys())
+        want = []
+        for x in list.__iter__(real):
+            for k in x:
+                if k not in want:
+                    want.append(k)
+        if got != want:
+            raise Violation("keys() is not the first-seen union of the items' keys", got=got, want=want)
+        return real
     raise AssertionError(name)
 
 
